@@ -514,9 +514,13 @@ impl<P: ProcessRun> Run<'_, P> {
         metrics: &mut RunMetrics,
     ) -> Result<(), Failed> {
         for uri in task.tal.uris() {
-            let cert = match self.load_ta(uri, task.tal.info())? {
-                Some(cert) => cert,
-                _ => continue,
+            let cert = match self.load_ta(uri, task.tal.info()) {
+                Ok(Some(cert)) => cert,
+                Ok(None) => continue,
+                Err(err) => {
+                    self.run_failed(err.into());
+                    return Err(Failed)
+                }
             };
             if cert.subject_public_key_info() != task.tal.key_info() {
                 warn!(
@@ -539,9 +543,13 @@ impl<P: ProcessRun> Run<'_, P> {
             };
             debug!("Found valid trust anchor {uri}. Processing.");
 
-            match self.processor.process_ta(
+            let processor = self.processor.process_ta(
                 task.tal, uri, &cert, cert.tal
-            )? {
+            ).map_err(|err| {
+                self.run_failed(err.into());
+                Failed
+            })?;
+            match processor {
                 Some(processor) => {
                     return self.process_ca_task(
                         CaTask {
